@@ -159,4 +159,193 @@ theorem dropWhile_spaces {m : Nat} {x : Txt} (h : x.head? ≠ some ' ') :
     simp only [spaces, List.mem_replicate] at ha
     simp [ha.2]
 
+
+theorem dropPrefix?_common (c p s : Txt) : dropPrefix? (c ++ p) (c ++ s) = dropPrefix? p s := by
+  induction c with
+  | nil => rfl
+  | cons a c ih => simp [dropPrefix?, ih]
+
+theorem dropPrefix?_head_ne {a b : Char} (p s : Txt) (h : a ≠ b) : dropPrefix? (a :: p) (b :: s) = none := by
+  simp [dropPrefix?, h]
+
+theorem dropPrefix?_cons_nil (a : Char) (p : Txt) : dropPrefix? (a :: p) [] = none := rfl
+
+theorem not_mem_append {c : Char} {a b : Txt} (ha : c ∉ a) (hb : c ∉ b) : c ∉ a ++ b := by
+  simp [ha, hb]
+
+/-! ## `mjcf_map.h` -/
+
+/-- Lexical well-formedness of the map rows (what the schema lexer guarantees for identifiers, quoted keywords and
+    IDENT/NUMBER values): no newline anywhere, no space in an enum name, no double quote in a keyword, a constant does
+    not start with a space. -/
+def MapWF (rows : MapRows) : Prop :=
+  ∀ e ∈ rows, '\n' ∉ e.1 ∧ ' ' ∉ e.1 ∧
+    ∀ kv ∈ e.2, '"' ∉ kv.1 ∧ '\n' ∉ kv.1 ∧ '\n' ∉ kv.2 ∧ kv.2.head? ≠ some ' '
+
+theorem lit_mjMap : L "inline constexpr mjMap " = 'i' :: (L "nline constexpr " ++ ('m' :: L "jMap ")) := rfl
+theorem lit_int : L "inline constexpr int " = 'i' :: (L "nline constexpr " ++ ('i' :: L "nt ")) := rfl
+theorem lit_row : L "  {\"" = ' ' :: ' ' :: '{' :: '"' :: [] := rfl
+theorem lit_row3 : L "  {" = ' ' :: ' ' :: '{' :: [] := rfl
+theorem lit_qc : L "\"," = ['"', ','] := rfl
+theorem lit_enum : L "// enum " = '/' :: L "/ enum " := rfl
+theorem lit_close : L "};" = ['}', ';'] := rfl
+theorem lit_sz : L "_sz = " = '_' :: 's' :: 'z' :: ' ' :: '=' :: ' ' :: [] := rfl
+theorem lit_sz3 : L "_sz" = ['_', 's', 'z'] := rfl
+theorem lit_eq : L " = " = [' ', '=', ' '] := rfl
+theorem lit_rc : L "}," = ['}', ','] := rfl
+
+theorem mapTok_nil : mapTok [] = none := by
+  simp only [mapTok, lit_mjMap, lit_row, lit_int, dropPrefix?_cons_nil]
+
+theorem mapTok_comment (n : Txt) : mapTok (L "// enum " ++ n) = none := by
+  simp only [mapTok, lit_mjMap, lit_row, lit_int, lit_enum, List.cons_append]
+  rw [dropPrefix?_head_ne _ _ (by decide), dropPrefix?_head_ne _ _ (by decide), dropPrefix?_head_ne _ _ (by decide)]
+
+theorem mapTok_close : mapTok (L "};") = none := by
+  simp only [mapTok, lit_mjMap, lit_row, lit_int, lit_close]
+  rw [dropPrefix?_head_ne _ _ (by decide), dropPrefix?_head_ne _ _ (by decide), dropPrefix?_head_ne _ _ (by decide)]
+
+theorem mapTok_start (n : Txt) : mapTok (L "inline constexpr mjMap " ++ n ++ L "_map[] = {") = some (.start n) := by
+  simp only [mapTok, List.append_assoc, dropPrefix?_append]
+  rw [dropSuffix?_append]; rfl
+
+theorem mapRowLine_eq (w : Nat) (k v : Txt) :
+    mapRowLine w (k, v)
+      = L "  {\"" ++ (k ++ '"' :: ',' :: (spaces (w + 1 - (quote k ++ [',']).length) ++ ' ' :: (v ++ L "},"))) := by
+  simp only [mapRowLine, ljust, lit_row, lit_row3, List.cons_append, List.nil_append, List.append_assoc]
+  simp only [quote, List.cons_append, List.nil_append, List.append_assoc]
+
+theorem mapTok_row (w : Nat) {k v : Txt} (hk : '"' ∉ k) (hv : v.head? ≠ some ' ') :
+    mapTok (mapRowLine w (k, v)) = some (.row k v) := by
+  have h0 : dropPrefix? (L "inline constexpr mjMap ") (mapRowLine w (k, v)) = none := by
+    simp only [mapRowLine, lit_mjMap, lit_row3, List.cons_append]
+    exact dropPrefix?_head_ne _ _ (by decide)
+  rw [mapTok, h0]
+  simp only [mapRowLine_eq, dropPrefix?_append]
+  rw [takeWhile_ne_append hk, dropWhile_ne_append hk]
+  have e2 : ∀ x : Txt, ('"' :: ',' :: x) = L "\"," ++ x := by
+    intro x; simp only [lit_qc, List.cons_append, List.nil_append]
+  rw [e2, dropPrefix?_append]
+  have hv' : (v ++ L "},").head? ≠ some ' ' := by
+    cases v with
+    | nil => simp [lit_rc]
+    | cons a v => simpa using hv
+  simp only [dropWhile_spaces hv', dropSuffix?_append, Option.map_some]
+
+theorem mapTok_sz {n : Txt} (k : Nat) (hn : ' ' ∉ n) :
+    mapTok (L "inline constexpr int " ++ n ++ L "_sz = " ++ natStr k ++ [';']) = some (.sz n k) := by
+  have h0 : dropPrefix? (L "inline constexpr mjMap ") (L "inline constexpr int " ++ n ++ L "_sz = " ++ natStr k ++ [';']) = none := by
+    rw [lit_mjMap, lit_int]
+    simp only [List.append_assoc, List.cons_append, dropPrefix?, if_true, dropPrefix?_common]
+    exact dropPrefix?_head_ne _ _ (by decide)
+  have h1 : dropPrefix? (L "  {\"") (L "inline constexpr int " ++ n ++ L "_sz = " ++ natStr k ++ [';']) = none := by
+    rw [lit_row, lit_int]
+    simp only [List.append_assoc, List.cons_append]
+    exact dropPrefix?_head_ne _ _ (by decide)
+  rw [mapTok, h0, h1]
+  simp only [List.append_assoc, dropPrefix?_append]
+  have e : n ++ (L "_sz = " ++ (natStr k ++ [';'])) = (n ++ L "_sz") ++ ' ' :: (L " = " ++ (natStr k ++ [';'])).tail := by
+    simp only [lit_sz, lit_sz3, lit_eq, List.cons_append, List.nil_append, List.append_assoc, List.tail_cons]
+  have hn' : ' ' ∉ n ++ L "_sz" := by
+    rw [lit_sz3]; exact not_mem_append hn (by decide)
+  rw [e, takeWhile_ne_append hn', dropWhile_ne_append hn', dropSuffix?_append]
+  have e2 : ' ' :: (L " = " ++ (natStr k ++ [';'])).tail = L " = " ++ (natStr k ++ [';']) := by
+    simp only [lit_eq, List.cons_append, List.nil_append, List.tail_cons]
+  rw [e2, dropPrefix?_append]
+  simp only [dropSuffix?_append, parseNat?_natStr, Option.map_some]
+
+
+/-- The tokens of one enum block. -/
+def blockToks (e : Txt × List (Txt × Txt)) : List MapTok :=
+  MapTok.start e.1 :: e.2.map (fun kv => MapTok.row kv.1 kv.2) ++ [MapTok.sz e.1 e.2.length]
+
+theorem filterMap_rows (w : Nat) (l : List (Txt × Txt)) (hl : ∀ kv ∈ l, '"' ∉ kv.1 ∧ kv.2.head? ≠ some ' ') :
+    (l.map (mapRowLine w)).filterMap mapTok = l.map (fun kv => MapTok.row kv.1 kv.2) := by
+  induction l with
+  | nil => rfl
+  | cons kv l ih =>
+    have := hl kv List.mem_cons_self
+    obtain ⟨k, v⟩ := kv
+    simp only [List.map_cons, List.filterMap_cons, mapTok_row w this.1 this.2]
+    rw [ih (fun x hx => hl x (List.mem_cons_of_mem _ hx))]
+
+theorem filterMap_mapBlock {e : Txt × List (Txt × Txt)}
+    (h : ' ' ∉ e.1 ∧ ∀ kv ∈ e.2, '"' ∉ kv.1 ∧ kv.2.head? ≠ some ' ') :
+    (mapBlock e).filterMap mapTok = blockToks e := by
+  obtain ⟨n, items⟩ := e
+  simp only at h
+  unfold mapBlock blockToks
+  simp only [List.cons_append, List.nil_append, List.filterMap_cons, List.filterMap_append, List.filterMap_nil]
+  rw [mapTok_comment, mapTok_start, mapTok_close, mapTok_sz _ h.1, mapTok_nil, filterMap_rows _ _ h.2]
+
+theorem foldl_rows (done : MapRows) (n : Txt) (acc items : List (Txt × Txt)) (rest : List MapTok) :
+    (items.map (fun kv => MapTok.row kv.1 kv.2) ++ rest).foldl mapStep (some ⟨done, some (n, acc)⟩)
+      = rest.foldl mapStep (some ⟨done, some (n, acc ++ items)⟩) := by
+  induction items generalizing acc with
+  | nil => simp
+  | cons kv items ih => simp [mapStep, ih]
+
+theorem foldl_block (done : MapRows) (e : Txt × List (Txt × Txt)) (rest : List MapTok) :
+    (blockToks e ++ rest).foldl mapStep (some ⟨done, none⟩) = rest.foldl mapStep (some ⟨done ++ [e], none⟩) := by
+  obtain ⟨n, items⟩ := e
+  simp only [blockToks, List.cons_append, List.foldl_cons, mapStep, List.append_assoc]
+  rw [foldl_rows]
+  simp [mapStep]
+
+theorem foldl_blocks (done rows : MapRows) :
+    (rows.flatMap blockToks).foldl mapStep (some ⟨done, none⟩) = some ⟨done ++ rows, none⟩ := by
+  induction rows generalizing done with
+  | nil => simp
+  | cons e rows ih =>
+    rw [List.flatMap_cons, foldl_block, ih]; simp
+
+
+theorem mapBlock_no_nl {e : Txt × List (Txt × Txt)}
+    (h : '\n' ∉ e.1 ∧ ∀ kv ∈ e.2, '\n' ∉ kv.1 ∧ '\n' ∉ kv.2) : ∀ l ∈ mapBlock e, '\n' ∉ l := by
+  obtain ⟨n, items⟩ := e
+  intro l hl
+  simp only [mapBlock, List.cons_append, List.nil_append, List.mem_cons, List.mem_append, List.mem_map,
+    List.not_mem_nil, or_false] at hl
+  have hd : '\n' ∉ natStr items.length := not_mem_natStr (by decide)
+  have hn := h.1
+  rcases hl with rfl | rfl | ⟨kv, hkv, rfl⟩ | rfl | rfl | rfl
+  · exact not_mem_append (by simp [L]) hn
+  · exact not_mem_append (not_mem_append (by simp [L]) hn) (by simp [L])
+  · have := h.2 kv hkv
+    simp only [mapRowLine, ljust, quote, spaces]
+    refine not_mem_append (not_mem_append (not_mem_append (not_mem_append (by simp [L]) ?_) (by simp)) this.2) (by simp [L])
+    refine not_mem_append (not_mem_append ?_ (by simp)) ?_
+    · simp only [List.mem_cons, List.mem_append, List.not_mem_nil, or_false, not_or]
+      exact ⟨by decide, this.1, by decide⟩
+    · simp [List.mem_replicate]
+  · simp [L]
+  · exact not_mem_append (not_mem_append (not_mem_append (not_mem_append (by simp [L]) hn) (by simp [L])) hd) (by simp)
+  · simp
+
+theorem extractMap_renderMap {rows : MapRows} (h : MapWF rows) : extractMap (renderMap rows) = some rows := by
+  unfold extractMap renderMap
+  simp only [List.append_assoc, dropPrefix?_append]
+  rw [dropSuffix?_append]
+  simp only
+  have hnl : ∀ l ∈ rows.flatMap mapBlock, '\n' ∉ l := by
+    intro l hl
+    obtain ⟨e, he, hle⟩ := List.mem_flatMap.1 hl
+    have := h e he
+    exact mapBlock_no_nl ⟨this.1, fun kv hkv => ⟨(this.2.2 kv hkv).2.1, (this.2.2 kv hkv).2.2.1⟩⟩ l hle
+  have hlines : (linesOf (joinNL (rows.flatMap mapBlock))).filterMap mapTok = (rows.flatMap mapBlock).filterMap mapTok := by
+    by_cases hne : rows.flatMap mapBlock = []
+    · rw [hne]; simp [joinNL, joinWith, linesOf, splitCh, mapTok_nil]
+    · rw [linesOf_joinNL hnl hne]
+  have htoks : (rows.flatMap mapBlock).filterMap mapTok = rows.flatMap blockToks := by
+    clear hnl hlines
+    induction rows with
+    | nil => rfl
+    | cons e rows ih =>
+      have he := h e List.mem_cons_self
+      simp only [List.flatMap_cons, List.filterMap_append]
+      rw [filterMap_mapBlock ⟨he.2.1, fun kv hkv => ⟨(he.2.2 kv hkv).1, (he.2.2 kv hkv).2.2.2⟩⟩,
+        ih (fun x hx => h x (List.mem_cons_of_mem _ hx))]
+  rw [hlines, htoks, foldl_blocks]
+  simp
+
 end MjProof.SchemaGen
